@@ -100,14 +100,17 @@ Definition banded (s t : list A) (e : nat) : nat :=
 
 Definition absdiff (m n : nat) : nat := (m - n) + (n - m).
 
-(* edit_distance(s, t, maxdiff): maxdiff = -1 means "no band" *)
+(* edit_distance(s, t, maxdiff): maxdiff = -1 means "no band".
+   `if e != -1 and e >= max(m, n): e = -1` : a band at least as wide as the longer string is dropped
+   (this also keeps j + e + 1 of the banded branch far away from INT_MAX). *)
 Definition edit_distance (s t : list A) (maxdiff : Z) : nat :=
   let m := length s in
   let n := length t in
-  if negb (Z.eqb maxdiff (-1)) && Z.gtb (Z.of_nat (absdiff m n)) maxdiff then absdiff m n
+  let e := if negb (Z.eqb maxdiff (-1)) && Z.geb maxdiff (Z.of_nat (Nat.max m n)) then (-1)%Z else maxdiff in
+  if negb (Z.eqb e (-1)) && Z.gtb (Z.of_nat (absdiff m n)) e then absdiff m n
   else
     let (s', t') := trim s t in
-    if Z.eqb maxdiff (-1) then dist s' t' else banded s' t' (Z.to_nat maxdiff).
+    if Z.eqb e (-1) then dist s' t' else banded s' t' (Z.to_nat e).
 
 (* the contract of the banded variant as an executable predicate (used on implementation outputs) *)
 Definition banded_contract (l : nat) (maxdiff : Z) (result : nat) : bool :=
